@@ -810,7 +810,14 @@ def truth(a):
     if is_const(a):
         return const(bool(a[1]))
     if tag(a) == 'phi':
-        return phi(a[1], truth(a[2]), truth(a[3]))
+        c, x, y = a[1], truth(a[2]), truth(a[3])
+        # `c and x` evaluates to Phi(c ? x : c), `c or y` to Phi(c ? c : y): as truth values these are c & x, c | y
+        if tag(x) != 'raise' and tag(y) != 'raise':
+            if y == c or y == FALSE:
+                return and_(c, x)
+            if x == c or x == TRUE:
+                return or_(c, y)
+        return phi(c, x, y)
     if tag(a) == 'raise':
         return a
     t = type_of(a)
